@@ -284,6 +284,18 @@ func (rl *rowLoop) blocksOfClass(cls string) []*ssa.BasicBlock {
 	return out
 }
 
+// commonBlocks: blocks of the loop body that belong to no path class and lie on every completed iteration (they dominate
+// the latch): code before the presence test and after the paths have merged again.
+func (rl *rowLoop) commonBlocks() []*ssa.BasicBlock {
+	var out []*ssa.BasicBlock
+	for _, b := range rl.Fn.Blocks {
+		if rl.Header.Dominates(b) && b != rl.Header && rl.classify(b) == "?" && rl.Latch != nil && b.Dominates(rl.Latch) {
+			out = append(out, b)
+		}
+	}
+	return out
+}
+
 // indexedBy: v is `X[i]` (a load of an element) with index i == the given phi; returns the slice term's field path.
 func indexedBy(v ssa.Value, idx ssa.Value) (string, bool) {
 	u, ok := v.(*ssa.UnOp)
